@@ -323,7 +323,7 @@ func c19Workload(r *Run, idx int, kind string, maxSize int64, G, ops, keys int) 
 					api.get(i % keys)
 				case 2:
 					op = c19Delete
-					api.del((i*3+g)%keys)
+					api.del((i*3 + g) % keys)
 				case 3:
 					op = c19SetTTL
 					api.set((i*5+g)%keys, int64(g)<<32|int64(i), time.Duration(1+i%3000)*time.Microsecond)
